@@ -18,6 +18,9 @@ type Builder struct {
 	responseStreams map[graphsync.RequestID]io.Closer
 	subscribers     map[graphsync.RequestID]notifications.Subscriber
 	blockData       map[graphsync.RequestID][]graphsync.BlockData
+	// reserved is the memory reserved from the allocator for everything added to this
+	// builder (block data and extension data); it is what has to be released for it
+	reserved uint64
 }
 
 // NewBuilder sets up a new builder for the given topic
@@ -91,7 +94,7 @@ func (b *Builder) build(publisher notifications.Publisher) (gsmsg.GraphSyncMessa
 		},
 		ctx:             b.ctx,
 		topic:           b.topic,
-		msgSize:         b.BlockSize(),
+		msgSize:         b.reserved,
 		responseStreams: b.responseStreams,
 	}, nil
 }
